@@ -55,10 +55,10 @@ MC = {
               ("self-f13", "MC_SecureSwarm", "SecureSwarm_weak_f13.cfg", 1, "Attribution"),
               ("self-f35", "MC_SecureSwarm", "SecureSwarm_weak_f35.cfg", 1, "Whitelist"),
               ("self-dial", "MC_SecureSwarm", "SecureSwarm_weak_dial.cfg", 1, "DialSafety")],
-    "thorough": [("deep", "MC_SecureSwarm", "SecureSwarm_deep.cfg", 4, None),
-                 ("wl_full", "MC_SecureSwarm", "SecureSwarm_wl_full.cfg", 4, None),
-                 ("two_p2pke", "MC_SecureSwarm", "SecureSwarm_two_p2pke.cfg", 4, None),
+    "thorough": [("wl_full", "MC_SecureSwarm", "SecureSwarm_wl_full.cfg", 4, None),
                  ("two_quic", "MC_SecureSwarm", "SecureSwarm_two_quic.cfg", 4, None),
+                 ("two_p2pke", "MC_SecureSwarm", "SecureSwarm_two_p2pke.cfg", 4, None),
+                 ("deep", "MC_SecureSwarm", "SecureSwarm_deep.cfg", 4, None),
                  ("two_ssh", "MC_SecureSwarm", "SecureSwarm_two_ssh.cfg", 4, None),
                  ("two_wl", "MC_SecureSwarm", "SecureSwarm_two_wl.cfg", 4, None),
                  ("sshauth", "MC_SSHAuth", "SSHAuth_fixed.cfg", 1, None),
@@ -170,9 +170,14 @@ def binding_demo(d, lines, stats):
     Src of that delivery to another key, (b) remove the send event that announced the payload; TLC must print VIOL for
     (a) and DRIFT for (b). Otherwise the verdict machinery is not bound to the log: INCONCLUSIVE."""
     evs = [json.loads(x) for x in lines]
-    target = next((e for e in evs if e["ev"] == "deliver" and e["p"] > 0 and e["src"] in ("A", "B", "M")), None)
-    if target is None:
+    if not any(e["ev"] == "deliver" for e in evs):
         raise core.Inconclusive("no delivery at all was observed: the replayer is not exercising the swarms")
+    used = {(e["beh"], e["p"]): e["used"] for e in evs if e["ev"] == "send"}
+    # a delivery that is attributed correctly, so that the corruption is the only thing wrong with it
+    target = next((e for e in evs if e["ev"] == "deliver" and e["p"] > 0 and e["src"] in ("A", "B", "M")
+                   and used.get((e["beh"], e["p"])) == e["src"]), None)
+    if target is None:
+        return      # nothing is attributed correctly: the real violations speak for themselves
     beh = [e for e in evs if e["beh"] == target["beh"]]
     a, b = [], []
     for e in beh:
@@ -199,7 +204,7 @@ def run_pipeline(tier, replay_behaviour=None):
     stats = dict(mc={}, selftest={}, behaviours={}, generated={}, events=0, trace_states=0, drift=0, drift_samples=[],
                  deliveries=0, saw=0)
     d = core.scratch("secure")
-    ex = ThreadPoolExecutor(max_workers=10)
+    ex = ThreadPoolExecutor(max_workers=(8 if tier == "quick" else 6))
     mcf = []
     if replay_behaviour is None:
         gf = [ex.submit(generate, tier, fam, cfg, mode) for fam, (cfg, mode) in GEN[tier].items()]
@@ -234,7 +239,7 @@ def run_pipeline(tier, replay_behaviour=None):
             for b in chunk:
                 f.write(json.dumps(b) + "\n")
         tr = os.path.join(d, "trace_%d.ndjson" % i)
-        out = core.run([binp, "-in", p, "-out", tr, "-par", str(8 if tier == "quick" else 10), "-seed", str(core.seed())], timeout=1500)
+        out = core.run([binp, "-in", p, "-out", tr, "-par", str(16 if tier == "quick" else 12), "-seed", str(core.seed())], timeout=1500)
         core.log("secreplay[%d]: %s" % (i, out.strip().splitlines()[-1] if out.strip() else ""))
         return tr
 
